@@ -71,6 +71,10 @@ def variants():
     V["bg-trace-b"] = dict(srf_bg_conc=4.2e-7)
     # a halo a hair below two cells: int(halo/dx) = 1 where the base request's 20 m gives 2
     V["halo-hair-below"] = dict(halo=19.9999999)
+    # the same kind of request with profiles that are COLUMNS of one table (np.loadtxt style: strided, non-contiguous views)
+    tab = np.stack([u * 1.05, v, Kx, Ky, Kz], axis=1)
+    V["profiles-table-columns"] = dict(profiles=tuple(tab[:, k_] for k_ in range(5)))
+    V["source-strided-view"] = dict(srf_flx=np.repeat(np.repeat(b["srf_flx"] * 0.5, 2, axis=0), 2, axis=1)[::2, ::2])
     V["analytic"] = dict(analytic=True)
     V["halo30"] = dict(halo=30.0)
     V["haloNone"] = dict(halo=None)
@@ -157,7 +161,21 @@ def case_history(case):
     cache = GreensFunctionCache(cdir)
     served = []
     try:
+        files_of = {}
         for k, name in enumerate(hist):
+            if name.startswith("!"):
+                # an interrupted run / a full disk damaged the entry stored for this request: "!z:NAME" leaves zero bytes,
+                # "!h:NAME" the first half
+                how, tgt = name[1], name[3:]
+                model.damage(tgt)
+                for fn_ in files_of.get(tgt, []):
+                    pth = os.path.join(cdir, fn_)
+                    if os.path.exists(pth):
+                        data_ = open(pth, "rb").read()
+                        with open(pth, "wb") as fh_:
+                            fh_.write(b"" if how == "z" else data_[: len(data_) // 2])
+                continue
+            before_files = set(os.listdir(cdir)) if os.path.isdir(cdir) else set()
             kw = request(name)
             # the model key is the request's name: every variant differs from R0 in exactly one argument
             verdict = model.request(name, footprint=kw["footprint"])
@@ -179,6 +197,9 @@ def case_history(case):
                     v.append({"sub": "fatal", "sig": "fatal/%s" % type(e).__name__, "msg": "request %s after %s raised %s: %s (pattern %s)" % (name, hist[:k], type(e).__name__, e, pattern)})
                     continue
             served.append((name, verdict, cnt.n))
+            newf = (set(os.listdir(cdir)) if os.path.isdir(cdir) else set()) - before_files
+            if newf and name not in files_of:
+                files_of[name] = sorted(newf)
             d = _same(got, expected(name))
             if case.get("caller_overwrites", True):
                 # the caller owns what it was handed: it normalises / reuses the arrays in place
@@ -383,7 +404,19 @@ def run(ctx):
         pats = ["one-object"] if len(h) == 1 else (["one-object", "new-object", "two-process"] if len(h) == 2 else ["one-object", "two-process"])
         for p in pats:
             cases.append({"hist": h, "pattern": p})
+    # recovery paths inside histories: entries damaged on disk between requests (a, b range over pairs of different requests):
+    #   a b !a a b a b   - after the damaged entry of a was re-solved, b is still b and a is served from the cache again
+    #   a !a b a b a     - the recovery of a must not land in (or take its key from) another request's entry
+    dmg = []
+    pairs_ = [("R0", n) for n in NAMES if n not in ("R0", "dispersion")] + [(n, "R0") for n in NAMES if n not in ("R0", "dispersion")] + [("measx", "measy"), ("levels-order", "levels-subset"), ("halo30", "haloNone")]
+    for a_, b_ in pairs_:
+        for how in ("z", "h"):
+            dmg.append({"hist": [a_, b_, "!%s:%s" % (how, a_), a_, b_, a_, b_], "pattern": "one-object"})
+            dmg.append({"hist": [b_, a_, "!%s:%s" % (how, a_), b_, a_, b_, a_], "pattern": "one-object"})
+            dmg.append({"hist": [a_, "!%s:%s" % (how, a_), b_, a_, b_, a_], "pattern": "new-object" if how == "z" else "one-object"})
     res = ctx.run_cases(case_history, cases, sub="histories")
+    res += ctx.run_cases(case_history, dmg, sub="histories with entries damaged on disk")
+    cases = cases + dmg
     # directory-content states: set of stored requests
     states = set()
     for c in cases:
